@@ -332,6 +332,34 @@ def desugar_incl_ranges(body, fspec, rw):
     return out
 
 
+def splice_after_let(body, fspec, fname):
+    """proof lines after the first statement `let [mut] NAME[: T] = ...;` (anchor = the local's name; lost anchor => undecided)"""
+    out = list(body)
+    for name, lines in fspec.after_let.items():
+        found = None
+        for k, t in enumerate(out):
+            if is_id(t, 'let'):
+                j = nxt_sig(out, k)
+                if j < len(out) and is_id(out[j], 'mut'):
+                    j = nxt_sig(out, j)
+                if j < len(out) and is_id(out[j], name):
+                    # end of statement: `;` at depth 0
+                    q = j
+                    while q < len(out):
+                        x = out[q]
+                        if x.kind == 'punct' and x.text in OPEN:
+                            q = match_close(out, q)
+                        elif is_p(x, ';'):
+                            found = q
+                            break
+                        q += 1
+                    break
+        if found is None:
+            raise ExtractError('after_let anchor `%s` not found in %s' % (name, fname))
+        out[found + 1:found + 1] = [T('raw', '\n' + '\n'.join(lines) + '\n', out[found].start)]
+    return out
+
+
 def anf_split_try_map_filter(body, rw):
     """R5c: `let X[: T] = RECV.iter_try_map(A)?.into_iter_filter(B);`
          -> `let X__mapped = RECV.iter_try_map(A)?; let X[: T] = X__mapped.into_iter_filter(B);`
@@ -624,6 +652,8 @@ def emit_fn(em, unit, it, toks, fspec, path, src_text, rw):
         for ln in fspec.body_start:
             em.emit(ln)
     body = anf_split_try_map_filter(body, rw)
+    if fspec and fspec.after_let:
+        body = splice_after_let(body, fspec, lname)
     body = desugar_incl_ranges(body, fspec, rw)
     body = splice_body(em.obls, body, fspec, unit, lname, rw)
     # register loop invariants / closure clauses as obligations (line-approximate: whole function)
